@@ -54,6 +54,68 @@ def _base_self_attr(node, repo, cls):
     return None
 
 
+def local_aliases(func, repo, cls):
+    """flow-insensitive may-alias facts of the function's local names: {name: {(attr, depth)}} - depth 0: the name may be
+    the very object held by self.<attr>; depth k: a tuple / list / dict whose elements (k levels down) may be that object.
+    Only constructs that keep object identity are followed (displays, conditional expressions, subscripts, for / comprehension
+    targets, zip / enumerate / reversed / iter); anything that copies (list(), sorted(), slicing, calls) is not."""
+    al = {}
+
+    def of(e):
+        if e is None:
+            return set()
+        if is_self_attr(e):
+            t = M.getter_target(repo, cls, e.attr)
+            return {(t if t is not None else e.attr, 0)}
+        if isinstance(e, ast.Name):
+            return set(al.get(e.id, ()))
+        if isinstance(e, (ast.Tuple, ast.List, ast.Set)):
+            return {(a, d + 1) for x in e.elts for a, d in of(x.value if isinstance(x, ast.Starred) else x)}
+        if isinstance(e, ast.Dict):
+            return {(a, d + 1) for x in e.values for a, d in of(x)}
+        if isinstance(e, ast.IfExp):
+            return of(e.body) | of(e.orelse)
+        if isinstance(e, ast.BoolOp):
+            return set().union(*[of(v) for v in e.values])
+        if isinstance(e, ast.NamedExpr):
+            return of(e.value)
+        if isinstance(e, ast.Subscript) and not isinstance(e.slice, ast.Slice):
+            return {(a, d - 1) for a, d in of(e.value) if d >= 1}
+        if isinstance(e, ast.Call) and dotted(e.func) in ("zip", "enumerate", "reversed", "iter", "itertools.chain", "chain"):
+            # iterating yields tuples of the arguments' elements (zip / enumerate) or the elements themselves
+            wrap = 1 if dotted(e.func) in ("zip", "enumerate") else 0
+            return {(a, d + wrap) for x in e.args for a, d in of(x) if d >= 1}
+        return set()
+
+    def bind(t, facts):
+        if isinstance(t, ast.Name):
+            if not facts <= al.get(t.id, set()):
+                al[t.id] = al.get(t.id, set()) | facts
+                return True
+            return False
+        if isinstance(t, (ast.Tuple, ast.List)):
+            sub = {(a, d - 1) for a, d in facts if d >= 1}
+            return any([bind(x.value if isinstance(x, ast.Starred) else x, sub) for x in t.elts])
+        return False
+    changed = True
+    rounds = 0
+    while changed and rounds < 10:
+        changed = False
+        rounds += 1
+        for n in ast.walk(func.node):
+            if isinstance(n, ast.Assign):
+                f = of(n.value)
+                for t in n.targets:
+                    changed |= bind(t, f)
+            elif isinstance(n, ast.NamedExpr):
+                changed |= bind(n.target, of(n.value))
+            elif isinstance(n, (ast.For, ast.comprehension)):
+                changed |= bind(n.target, {(a, d - 1) for a, d in of(n.iter) if d >= 1})
+            elif isinstance(n, ast.withitem) and n.optional_vars is not None:
+                changed |= bind(n.optional_vars, of(n.context_expr))
+    return {k: {a for a, d in v if d == 0} for k, v in al.items() if any(d == 0 for _a, d in v)}
+
+
 _PM_CACHE = {}
 
 
@@ -110,6 +172,19 @@ def write_sites(repo, cls, func, D):
     attributes in D (assignment, augmented assignment, subscript store, mutator
     call, or passing the attribute to a helper that mutates that parameter)"""
     out = []
+    aliases = local_aliases(func, repo, cls)
+
+    def bases(node):
+        """attributes of self whose object the expression (under subscripts) may denote: self._X directly, or a local name
+        that may alias it"""
+        a = _base_self_attr(node, repo, cls)
+        if a is not None:
+            return [a]
+        while isinstance(node, ast.Subscript):
+            node = node.value
+        if isinstance(node, ast.Name):
+            return sorted(aliases.get(node.id, ()))
+        return []
     for n in walk_no_nested(func.node):
         if isinstance(n, (ast.Assign, ast.AugAssign, ast.AnnAssign, ast.Delete)):
             tg = n.targets if isinstance(n, (ast.Assign, ast.Delete)) else [n.target]
@@ -121,14 +196,18 @@ def write_sites(repo, cls, func, D):
                     if t.attr in D:
                         out.append((t.attr, n))
                 elif isinstance(t, ast.Subscript):
-                    a = _base_self_attr(t, repo, cls)
-                    if a in D:
-                        out.append((a, n))
+                    for a in bases(t):
+                        if a in D:
+                            out.append((a, n))
+                elif isinstance(t, ast.Name) and isinstance(n, ast.AugAssign):
+                    for a in sorted(aliases.get(t.id, ())):       # name += [...] extends the aliased list in place
+                        if a in D:
+                            out.append((a, n))
         elif isinstance(n, ast.Call):
             if isinstance(n.func, ast.Attribute) and n.func.attr in MUTATORS:
-                a = _base_self_attr(n.func.value, repo, cls)
-                if a in D:
-                    out.append((a, n))
+                for a in bases(n.func.value):
+                    if a in D:
+                        out.append((a, n))
             if is_self_attr(n.func):
                 callee = repo.resolve_method(cls, n.func.attr)
                 if callee is not None:
